@@ -165,11 +165,19 @@ def call_spec(ip, sp, args, kw):
     args = [concrete_of(a)[1] if isinstance(a, SV) and concrete_of(a)[0] else a for a in args]
     if not has_sym(args) and not ip.st.ghost.get('no_native_spec'):
         try:
-            return sp.fn(*args)
+            r = sp.fn(*args)
         except Unsupported:
             raise
         except Exception as ex:
             raise Unsupported("spec %s failed natively: %r" % (sp.name, ex))
+        if sp.rec and sp.args is not None and not isinstance(sp.zfun, list):
+            # link the concrete value to the uninterpreted application (other terms may mention it symbolically)
+            try:
+                app = sp.zfun(*[lift(a, k).e for a, k in zip(args, sp.args)])
+                ip.st.assume_def(app == lift(r, sp.ret).e)
+            except Unsupported:
+                pass
+        return r
     if sp.special is not None:
         return sp.special(ip, *args)
     if not sp.rec:
@@ -192,6 +200,10 @@ def call_spec(ip, sp, args, kw):
     done = st.ghost.setdefault('unfolded', set())
     cur = st.ghost.get('fuel')
     fuel = sp.fuel if cur is None else cur
+    if sp.opaque:
+        # opaque: only its name and post-facts are visible unless the unit/lemma asks to reveal it
+        fuel = 1 if (sp.name in st.ghost.get('reveal', ()) or '*' in st.ghost.get('reveal', ())) else 0
+        cur = st.ghost.get('fuel')
     if key not in done:
         if sp.post is not None:
             done.add(key)   # avoid re-entry while evaluating post
